@@ -29,8 +29,11 @@ package sessions
 //@ func (*Cache).addJarToCache props(C10,C07)
 //@   requires c != nil && c.cache != nil && !held(c.mu)
 //@   assigns ghost lruHas[c.cache], ghost lruEv[c.cache]
+//@   ghost adds int = 0
 //@   call (*lru.Cache).Add
-//@     assert[C10:store-jar-under-given-id] held(c.mu) && arg0 == c.cache && ifaceStr(arg1) == sessionID && arg2 == jar
+//@     assert[C10:store-jar-under-given-id] held(c.mu) && arg0 == c.cache && ifaceStr(arg1) == sessionID && arg2 == jar && adds == 0
+//@     do adds = adds + 1
+//@   ensures[C10:jar-remembered-under-its-session-id] adds == 1 && lruHas[c.cache][sessionID]
 
 // WriteHeader: backend cookies never reach the client; the only Set-Cookie is the agent's session cookie, issued only
 // when the request carried no session; intercepted cookies go to the jar of exactly this writer's session.
